@@ -349,6 +349,13 @@ func C03Cases(tier string, seed int64) []Case {
 		c.MustReach = []string{"dkg-complete"}
 		cases = append(cases, c)
 	}
+	for _, pol := range protocolPolicies(tier) {
+		p := pol
+		c := both("C03/canetti/"+p.Name, map[string]any{"dkg": "canetti", "policy": p.Name},
+			func(e Env[*symalg.G, *symalg.F]) { c03Canetti(e, p) }, nil)
+		c.MustReach = []string{"dkg-complete"}
+		cases = append(cases, c)
+	}
 	for _, pol := range append(smallPolicies(tier, seed, 4), hierarchicalExtra()...) {
 		p := pol
 		cases = append(cases, both("C03/trusteddealer/"+p.Name, map[string]any{"dkg": "trusted dealer", "policy": p.Name},
